@@ -572,12 +572,12 @@ class Enumerator:
         for k in [k for k in st.val if token in k]:
             del st.val[k]
 
-    def _loop_common(self, node, st1: St, body_st: St, kind: str, itertext: str, tag: str, exit_test: ast.expr | None, iter_term: ast.expr | None = None):
+    def _loop_common(self, node, st1: St, body_st: St, kind: str, itertext: str, tag: str, exit_test: ast.expr | None, iter_term: ast.expr | None = None, keep_from: int | None = None):
         """Enumerate the body once; build continuations (a)/(b)/(c)."""
         names = _assigned_names(node.body)
         attrs = _stored_attrs(node.body)
-        base_len = 0
-        body_st.evs = []
+        # the body's own event list starts with the decisions of the loop test that let this iteration in
+        body_st.evs = body_st.evs[keep_from:] if keep_from is not None else []
         body_res = self.exec_block(node.body, body_st)
         paths = [Path(s.evs, s.val, o) for s, o in body_res]
         out: list[tuple[St, tuple]] = []
@@ -636,10 +636,11 @@ class Enumerator:
         # body from a havocked state in which the test holds
         hv = st.fork()
         self._havoc(hv, names, attrs, tag)
+        n0 = len(hv.evs)
         entered = [b for b, truth in self.branch(s.test, hv) if truth is True]
         for body_st in entered:
             st1 = st.fork()
-            res = self._loop_common(s, st1, body_st, "while", render(s.test), tag, s.test)
+            res = self._loop_common(s, st1, body_st, "while", render(s.test), tag, s.test, keep_from=n0)
             out.extend(res)
         return out
 
